@@ -11,5 +11,4 @@ import "github.com/trzsz/trzsz-go/trzsz"
 func init() {
 	c13VlDump = trzsz.VerifVlDump
 	c13VlRelease = trzsz.VerifVlRelease
-	c13VlPoints = trzsz.VerifVlPoints
 }
